@@ -120,7 +120,7 @@ TraceRespond ==
     /\ active /\ HasLine /\ Line.ev = "Response" /\ Line.kind = "final" /\ phase = "write"
     /\ Respond(Line.close)
     /\ Line.close = reqs[cur].close
-    /\ Line.status = 200 /\ Line.seq = cur
+    /\ Line.status = 200 /\ Line.seq = cur /\ Line.body = "ok-" \o ToDec(cur)
     /\ (script[cur].ver = "1.0" /\ ~Line.close) => Line.keepalive
     /\ Consume /\ KeepAux
 
